@@ -21,6 +21,7 @@ HOSTILE = [
     '"', "'", '"abc', "(", ")", "[", "\\", "...", "…", "1...", "-", "--1", "0x", "1_", "1e999", "9" * 40, "-0", "0", "-1", "2**31", "NaN", "sNaN", "Infinity", "-Infinity",
     "1.5", "ä", "€", "a\x00b", "\t", "a\rb", "a\nb", " ", "", "x" * 300, "%", "%Q", "{", "*", "?", "[a-", "(?P<", "lambda", "count", "__class__", "is_valid", "format", "none",
     "0x110000", 'u"a"', "for", "None", "1,2", "a,b", ";", "'a' 'b'", '"""', "\\x", "DD.DD", "1...2...3", "5...1",
+    ",", ",,", '"\\x"', "'\\'", '"\\u12"', '"\\N{x}"', '"\\"', "...,", ",1", "1,", "a,", "- ,", "0x1,0x", "%%", "\\", "[", "]]", "(?i", "a**", "x{2,1}",
 ]
 FIELDS = {
     "delimited": [["id", "12", "", "1...5", "Integer", "0...99999"], ["name", "Bob", "X", "...10", "Text", ""], ["kind", "a", "", "", "Choice", '"a","b"'],
